@@ -425,7 +425,9 @@ func pureAttr(f []string) string {
 	case "hyp":
 		d, _ := strconv.ParseUint(f[2], 10, 32)
 		x := &fwdtypes.HypAttributes{TokenId: []byte(mustUnhx(f[1])), DestinationDomain: uint32(d), Recipient: []byte(mustUnhx(f[3])),
-			CustomHookId: []byte(mustUnhx(f[4])), CustomHookMetadata: mustUnhx(f[5])}
+			CustomHookId: []byte(mustUnhx(f[4])), CustomHookMetadata: mustUnhx(f[5]),
+			// as after the Any round trip every decoded payload goes through: an unset amount is zero, not nil
+			MaxFee: sdk.Coin{Amount: sdkmath.ZeroInt()}}
 		a, verr = x, x.Validate()
 	case "int":
 		x := &fwdtypes.InternalAttributes{Recipient: mustUnhx(f[1])}
